@@ -17,6 +17,9 @@ for f in sorted(glob.glob(os.path.join(V, "variants", "benign", "renames", "*.di
 # small correct extensions (counters, knobs with the old default, validation, fast paths) by independent authors (round 9)
 for f in sorted(glob.glob(os.path.join(V, "variants", "benign", "extensions", "*.diff"))):
     specs.append({"name": "extension:" + os.path.basename(f)[:-5], "patch": os.path.relpath(f, V)})
+# round 10: two refactorings and two extensions per property at the anchored functions the earlier rounds had not visited
+for f in sorted(glob.glob(os.path.join(V, "variants", "benign", "round10", "*.diff"))):
+    specs.append({"name": "round10:" + os.path.basename(f)[:-5], "patch": os.path.relpath(f, V)})
 only = sys.argv[1:]
 for _once in [0]:
     for sp in specs:
